@@ -548,9 +548,9 @@ def _process_block(P, f, stmts, new, state):
         if isinstance(s, (ast.Return, ast.Assign)) and isinstance(getattr(s, 'value', None), ast.ListComp) and len(s.value.generators) == 1 \
                 and not s.value.generators[0].is_async and any(
                     isinstance(c_, ast.Call) and isinstance(_resolve(P, f, c_), str) and _resolve(P, f, c_) in new for c_ in ast.walk(s.value)) \
-                and (isinstance(s, ast.Return) or (len(s.targets) == 1 and isinstance(s.targets[0], ast.Name))):
+                and (isinstance(s, ast.Return) or (len(s.targets) == 1 and isinstance(s.targets[0], (ast.Name, ast.Attribute)))):
             g = s.value.generators[0]
-            x = s.targets[0].id if isinstance(s, ast.Assign) else f'ret__c{s.lineno}'
+            x = s.targets[0].id if isinstance(s, ast.Assign) and isinstance(s.targets[0], ast.Name) else f'ret__c{s.lineno}'
             inner = ast.Expr(value=ast.Call(func=ast.Attribute(value=ast.Name(id=x, ctx=ast.Load()), attr='append', ctx=ast.Load()), args=[s.value.elt], keywords=[]))
             for c_ in reversed(g.ifs):
                 inner = ast.If(test=c_, body=[inner], orelse=[])
@@ -562,6 +562,8 @@ def _process_block(P, f, stmts, new, state):
             out += _process_block(P, f, [loop], new, state)
             if isinstance(s, ast.Return):
                 out.append(ast.copy_location(ast.Return(value=ast.copy_location(ast.Name(id=x, ctx=ast.Load()), s)), s))
+            elif isinstance(s.targets[0], ast.Attribute):
+                out.append(ast.copy_location(ast.Assign(targets=[s.targets[0]], value=ast.copy_location(ast.Name(id=x, ctx=ast.Load()), s)), s))
             continue
         pre = []
         for _round in range(6):
